@@ -269,7 +269,7 @@ func oracle(c, res string) string {
 		}
 		return ""
 	}
-	word := new(big.Int).Lsh(big.NewInt(1), 63)
+	word := new(big.Int).Lsh(big.NewInt(1), 64)
 	for _, l := range in {
 		if l.Cmp(word) >= 0 {
 			if err == nil {
